@@ -65,6 +65,7 @@ class P(Prop):
         ("TracklibVerif.Props.C11", "TV.C11.split_ends_marked", "every piece but the last ends at a marked observation and contains no other marked one"),
         ("TracklibVerif.Props.C11", "TV.C11.split_tail_unmarked", "the last piece contains no marked observation"),
         ("TracklibVerif.Props.C11", "TV.C11.split_only_tail_empty", "only the trailing piece can be empty"),
+        ("TracklibVerif.Props.C11", "TV.C11.split_tail_empty_iff", "the trailing piece is empty exactly when the last observation is marked"),
         ("TracklibVerif.Props.C11", "TV.C11.split_pairs", "split only looks at the markers: pieces of (obs, marker) pairs are the images of the pieces of the self-tagged track"),
         ("TracklibVerif.Props.C11", "TV.C11.marker_and", "AND mode: call succeeds and marker = 1 iff some tested non-NaN value exceeds its threshold"),
         ("TracklibVerif.Props.C11", "TV.C11.marker_or", "OR mode: call succeeds and marker = 1 iff every tested non-NaN value exceeds its threshold"),
